@@ -13,6 +13,8 @@ pub fn is_eof<R: io::BufRead>(input: &mut R) -> io::Result<bool> {
 
 pub fn flush_zero_padding<R: io::BufRead>(input: &mut R) -> io::Result<bool> {
     loop {
+        #[cfg(feature = "verif")]
+        crate::verif::emit(crate::verif::Event::Tick(crate::verif::TICK_ZERO_PADDING));
         let len = {
             let buf = input.fill_buf()?;
             let len = buf.len();
